@@ -47,6 +47,10 @@ for i in range(S.budget):
             S.violation('C18:interior-between', f'table[{q}] = {got} is not between the neighbouring values', input=where)
     for side, q, allowed in [
         ('high', hi + abs(hi) * 0.0005 + 0.0, xhi or (hi > 0)),
+        ('high', hi * (1 + 0.001), xhi or (hi > 0)),                          # exactly ON the tolerance boundary: accepted
+        ('high', math.nextafter(hi * (1 + 0.001), math.inf), xhi),             # one float beyond it
+        ('low', lo * (1 - 0.001), xlo or (lo > 0)),
+        ('low', math.nextafter(lo * (1 - 0.001), -math.inf), xlo),
         ('high', hi + abs(hi) * 0.002 + 1e-6, xhi),
         ('high', hi + 1000.0, xhi),
         ('low', lo - abs(lo) * 0.0005, xlo or (lo > 0)),
